@@ -217,7 +217,7 @@ func c35Worker(w *WorkerCtx) {
 		return
 	}
 	// compile zoo: the same multi-contract worlds in every worker process, each compiled from scratch several times
-	nzoo := 4
+	nzoo := 8
 	if w.Tier == "thorough" {
 		nzoo = 40
 	}
